@@ -70,6 +70,9 @@ def generate(r, tier):
                 lines.append(("# %s is not set" % o) if r.random() < 0.2 else "%s=%s" % (o, r.choice(["y", "n", "5", '"s"'])))
             e["defaults"][fn] = lines
         tree.append(e)
+    for e in tree:
+        if e["dir"] and r.random() < 0.12:
+            e["git"] = r.choice(["file", "dir"])
     files = [os.path.join(e["dir"], fn) for e in tree for fn in e["defaults"]]
     rfiles = [os.path.join(e["dir"], "sdkconfig.rename") for e in tree if e["rename"]]
     invs = []
@@ -159,6 +162,11 @@ def build(sc, sb):
         for fn, lines in e["defaults"].items():
             with builtins.open(os.path.join(full, fn), "w") as f:
                 f.write("".join(ln + "\n" for ln in lines))
+        if e.get("git") == "file":
+            with builtins.open(os.path.join(full, ".git"), "w") as f:
+                f.write("gitdir: ../.git/modules/x\n")  # a submodule / vendored checkout: irrelevant to the scope rule
+        elif e.get("git") == "dir":
+            os.makedirs(os.path.join(full, ".git"), exist_ok=True)
     return root
 
 
